@@ -165,6 +165,11 @@ C14Type(e) == e.ev = "typeivl" => (\A key \in e.a..e.b : TypeMatches(e.type, key
 C14Sid(e) == e.ev = "sidivl" =>
    (e.sidok /\ e.a = 0 /\ e.b = 65535
     /\ e.rest = Wire(CtorBytes(e.kind, IF e.kind \in {"linktest.req", "linktest.rsp"} THEN 65535 ELSE 0, e.sys, e.code)))
+\* every status / reason code: the code byte follows the argument, the other bytes are the specification's for every
+\* code of the interval, and the message decodes from its bytes to an equal one of its kind
+C14Code(e) == e.ev = "codeivl" =>
+   (e.codeok /\ e.decok /\ e.prevb + 1 = e.a /\ e.a <= e.b /\ e.b <= 255
+    /\ \A code \in e.a..e.b : [e.rest EXCEPT ![8] = code] = Wire(CtorBytes(e.kind, e.sid, e.sys, code)))
 \* responses answer only their own kind of request, and echo it
 RspBytes(rsp, rq, status) == Wire(CASE rsp = "select.rsp" -> SelectRsp(rq, status)
                                     [] rsp = "deselect.rsp" -> DeselectRsp(rq, status)
@@ -188,7 +193,7 @@ C14Session(e) == e.ev = "sess" =>
          /\ e.ok = (TypeOf(e.rec.ptype, e.rec.stype) # "undefined")
          /\ (~e.ok \/ e.type = TypeOf(e.rec.ptype, e.rec.stype))
          /\ (e.reply.m.sid = -1 \/ (e.rbuilt /\ e.rbytes = Wire(SessHdr(e.reply.m)))))
-PropC14(e) == C14Case(e) /\ C14Type(e) /\ C14Sid(e) /\ C14Pairing(e) /\ C14Raw(e) /\ C14Session(e)
+PropC14(e) == C14Case(e) /\ C14Type(e) /\ C14Sid(e) /\ C14Code(e) /\ C14Pairing(e) /\ C14Raw(e) /\ C14Session(e)
 
 \* ------------------------------------------------------------------ model agreement (drift only)
 AgreeDecoder(e) == e.ev \in {"rt", "dec"} =>
